@@ -104,7 +104,7 @@ class Proto:
             def m(ex, callee, args, pc, events):
                 a = [ex.load(x) for x in args]
                 desc = []
-                for x in a[1:] if name in ("create_stream", "open_stream") else a:
+                for x in a[1:] if name in ("create_stream", "open_stream", "remove_stream") else a:
                     if isinstance(x, StrV):
                         desc.append(x.s)
                     elif isinstance(x, OpaqueV):
@@ -181,10 +181,23 @@ class Proto:
                     res.append((o.pc, o.events, o, o.heap))
             return res
 
+        def m_is_valid(ex, callee, args, pc, events):
+            b = P.ctx.fresh_bool("name_valid")
+            tbl = ex.load(args[1]) if len(args) > 1 else None
+            return [(pc, events + [("is_valid", b.term, getattr(tbl, "const", None))], BoolV(b.term))]
+
+        def m_encode2(ex, callee, args, pc, events):
+            n = ex.load(args[0])
+            tbl = ex.load(args[1]) if len(args) > 1 else None
+            tag = n.s if isinstance(n, StrV) else getattr(n, "what", repr(n))
+            return [(pc, events, StrV("enc(%s,%s)" % (tag, getattr(tbl, "const", "?"))))]
+
         def m_query_bool(ex, callee, args, pc, events):
             # CompoundFile::is_stream / exists: an arbitrary answer
-            b = P.ctx.fresh_bool("cfb_" + callee.split("::")[-1])
-            return [(pc, events + [("query:" + callee.split("::")[-1],)], BoolV(b.term))]
+            meth = re.sub(r"::<.*$", "", callee).split("::")[-1]
+            b = P.ctx.fresh_bool("cfb_" + meth)
+            nm = ex.load(args[1]) if len(args) > 1 else None
+            return [(pc, events + [("query:" + meth, nm.s if isinstance(nm, StrV) else repr(nm))], BoolV(b.term))]
 
         return [
             (r"CompoundFile::<F>::(is_stream|exists|is_storage)(::<.*>)?$", m_query_bool),
@@ -208,7 +221,7 @@ class Proto:
             (r"StringPool::write_data::<", fallible("write_data", "unit")),
             (r"(Insert|Update|Delete)::exec::<F>$", fallible("exec", "unit")),
             (r"Select::exec::<F>$", fallible("exec_select", "unit")),
-            (r"^is_valid$|streamname::is_valid$", lambda ex, callee, args, pc, events: [(pc, events, BoolV(P.ctx.fresh_bool("name_valid").term))]),
+            (r"^is_valid$|streamname::is_valid$", m_is_valid),
             (r"Option::<.*>::take$", m_take),
             (r"Option::<.*>::is_none$", m_is_none),
             (r"Option::<.*>::as_(mut|ref)$", m_as_mut),
@@ -216,7 +229,7 @@ class Proto:
             (r"Box::<FinishImpl>::new$", m_box_new),
             (r"as Try>::branch$", m_branch),
             (r"as FromResidual<.*>>::from_residual$", m_from_residual),
-            (r"^encode$|streamname::encode$", m_encode),
+            (r"^encode$|streamname::encode$", m_encode2),
             (r"as Into<String>>::into$", m_into),
             (r"<dyn Finish<F> as Finish<F>>::finish$", m_dyn_finish),
         ]
@@ -485,6 +498,53 @@ def protocol_groups(mir, ctx, which):
                 g.witness.append(Query("w_%s_%d" % (tag, len(g.witness)), o.pc, "sat"))
             if nok == 0:
                 raise EncodingError("protocol: drop_table has no successful path")
+        groups.append(g)
+
+    # ---------------------------------------------------------------- rejected calls change nothing (C04, partial)
+    if "reject" in which:
+        g = Group("protocol_reject_before_mutate", ["package::Package::read_stream", "package::Package::write_stream",
+                                                    "package::Package::remove_stream", "package::Package::drop_table"], confirm=_confirm,
+                  note="stream calls and drop_table: the name is validated (as a stream name, not a table name) before the container is "
+                       "touched; an argument error (invalid / unknown name) is returned without any creating or removing container call "
+                       "and without arming the finisher or changing a dirty flag; the container is always addressed by the encoding of the "
+                       "name that was validated")
+        for name, rx in (("read_stream", r"package::.*::read_stream$"), ("write_stream", r"package::.*::write_stream$"),
+                         ("remove_stream", r"package::.*::remove_stream$"), ("drop_table", r"package::.*::drop_table$")):
+            for fin in (False, True):
+                tag = "%s_%s" % (name, "armed" if fin else "unarmed")
+                s, p, outs = P.run(rx, fin, tag, extra_args=1, havoc=True)
+                get = {"summary_dirty_before": s.term, "pool_dirty_before": p.term}
+                nret = 0
+                for o in outs:
+                    if o.kind != "return":
+                        continue
+                    nret += 1
+                    evs = o.events
+                    failing = [e for e in evs if e[-1] == "Err"]
+                    mutating = [e for e in evs if e[0] in ("remove_stream", "create_stream", "exec", "tables_remove")]
+                    container = [i for i, e in enumerate(evs) if e[0] in ("remove_stream", "create_stream", "open_stream") or e[0].startswith("query:")]
+                    valid = [i for i, e in enumerate(evs) if e[0] == "is_valid"]
+                    if not _is_ok(o.value) and not failing:
+                        # an argument error
+                        if mutating:
+                            q(g, "mutated_" + tag, o.pc, "%s returns an argument error after %r" % (name, mutating[0][:2]), get)
+                        if P.finisher_is_some(o.heap) != fin and name != "drop_table":
+                            q(g, "armed_" + tag, o.pc, "%s arms the finisher although it fails with an argument error" % name, get)
+                    if name != "drop_table":
+                        if container and (not valid or valid[0] > container[0]):
+                            q(g, "unvalidated_" + tag, o.pc, "%s touches the container before validating the stream name" % name, get)
+                        if valid and evs[valid[0]][2] is not False:
+                            q(g, "validated_as_table_" + tag, o.pc, "%s validates the name as a TABLE name (streams and tables are encoded differently)" % name, get)
+                        if valid and container:
+                            # the invalid-name branch must not reach the container
+                            q(g, "invalid_reaches_" + tag, o.pc + [s_not(evs[valid[0]][1])], "%s touches the container although the name is invalid" % name, get)
+                        encs = set(str(x) for e in evs if e[0] in ("remove_stream", "create_stream", "open_stream") or e[0].startswith("query:")
+                                   for x in e[1:2] if str(x).startswith("enc("))
+                        if len(encs) > 1 or any(",True)" in x for x in encs):
+                            q(g, "encoding_" + tag, o.pc, "%s addresses the container by different / table-style encodings of the name: %s" % (name, sorted(encs)), get)
+                    g.witness.append(Query("w_%s_%d" % (tag, len(g.witness)), o.pc, "sat"))
+                if nret == 0:
+                    raise EncodingError("protocol: no return path through %s" % name)
         groups.append(g)
 
     # ---------------------------------------------------------------- read-only entry points (C16)
